@@ -305,6 +305,17 @@ def same_tree(eng, path, emitted, reference, cats=None):
                     assign[k] = placeholder(ph, cat, k)
             e_txt = render(emitted, assign, vals)
             r_txt = render(reference, assign, vals)
+            # references to groups the texts do not define themselves ((?(n)..), (?P=n), \N): both texts are read
+            # behind the same prefix that defines them (property C03 excepts undefined references)
+            import re as _re2
+            need = []
+            for t in (r_txt, e_txt):
+                for m in _re2.finditer(r"\(\?\((\w+)\)|\(\?P=(\w+)\)", t):
+                    nm = m.group(1) or m.group(2)
+                    if not nm.isdigit() and ("(?P<%s>" % nm) not in r_txt and nm not in need:
+                        need.append(nm)
+            pre = "".join("(?P<%s>z)" % nm for nm in need)
+            e_txt, r_txt = pre + e_txt, pre + r_txt
             res = native_parse([e_txt, r_txt])
             if "error" in res[1]:
                 raise CheckerError(f"reference text does not parse: {r_txt!r}: {res[1]['error']}")
